@@ -82,6 +82,7 @@ def history(job):
     home_tb = (rf.trans_inv(neutral_rel) @ np.vstack([bl, np.ones((1, 6))]))[:3]     # home bottom joints in the top frame
     rec = Rec(sp)
     ev = []
+    last_spin = [0.0]
 
     def project(name, kind, verdict, raised, before):
         nonlocal bl, tl
@@ -90,7 +91,8 @@ def history(job):
         lens = np.asarray(sp.getLens(), dtype=float).reshape(6)
         rel = sp.getCurrentLocalTransform().gTM()
         if name == "spinCustom" and not raised:
-            bl, tl = spzoo.tables(sp)            # a re-spin re-labels the plate coordinates: read the new tables
+            Rz = rf.rot_exp([0, 0, last_spin[0]])     # a re-spin turns the plate-fixed points about the plate axis (C09's G0):
+            bl, tl = Rz @ bl, Rz @ tl                  # computed, not read back from the platform
         want_l, pb, pt = spzoo.oracle_lens(bl, tl, B, T)
         scale = max(1.0, h)
         coh_j = float(max(np.abs(bj - pb).max(), np.abs(tj - pt).max())) / scale <= 1e-9
@@ -155,7 +157,8 @@ def history(job):
                 elif op == "move":
                     sp.move(tm(spzoo.rand_base(rng)))
                 elif op == "spinCustom":
-                    sp.spinCustom(rng.uniform(-1.0, 1.0))
+                    last_spin[0] = rng.uniform(-1.0, 1.0)
+                    sp.spinCustom(last_spin[0])
                 elif op == "validate":
                     v = sp.validate()
                     verdict = "valid" if v else "invalid"
